@@ -23,5 +23,10 @@ add("C01",
     "Trusted: the per-class model updates (what each public mutator does to the primary inputs); queries are compared at 1e-9 relative (1e-4 for projection twins holding float64 copies of float32 weights); ARPACK-based centralities, bookkeeping accessors, randomised generators, I/O and plotting are not judged.",
     "deterministic simulation: seeded operation histories with cache-capacity knob and durable working directory, fresh-twin reference model",
     "DESIGN.md §4 C01")
-for _p in ("C05", "C06", "C15", "C17"):
+add("C06",
+    "Seeded search over query orders on long-lived and shared objects: the ordered-pair matrix of all discovered query patterns (fresh; qa; qb) for the classes selected by the seed (all classes in the thorough tier) plus random query sequences replayed in a second order, in five sharing topologies (single object, two networks on one ClimateData, two networks on one GeoGrid, RecurrencePlot+Surrogates on one caller array, object and copy). After every step: value equals that of a fresh isolated object, an immediate repeat is equal, byte snapshots of every caller-supplied array are unchanged, and the shared Data/Grid object still answers like an isolated one; randomised generators run as perpetrators. Sampling, not enumeration.",
+    "Trusted: fresh isolated objects as reference; documented-in-place methods are not generated; calls that only work after an earlier query set something up are not judged; ARPACK-based centralities and bookkeeping accessors are excluded.",
+    "deterministic simulation: seeded query-order histories over shared objects with the cache-capacity knob, fresh-object reference",
+    "DESIGN.md §4 C06")
+for _p in ("C05", "C15", "C17"):
     PENDING[_p] = "in the family (DESIGN §4) but its check is not built yet in this commit; not claimed until it is"
